@@ -138,6 +138,9 @@ def term_cases(t):
     if k == "call" and t[1] == "Option::map" and len(t[2]) == 2:
         src = unref(t[2][0])
         return [("Some", [("is_some", src, True)], t), ("None", [("is_some", src, False)], t)]
+    if k == "call" and t[1] == "Option::zip" and len(t[2]) == 2:
+        a, b = unref(t[2][0]), unref(t[2][1])
+        return [("Some", [("is_some", a, True), ("is_some", b, True)], t), ("None", [], t)]
     if k == "call" and t[1] in ("bool::then", "bool::then_some") and len(t[2]) == 2:
         some_v = ("agg", "std::option::Option::Some", (t[2][1],)) if t[1] == "bool::then_some" else t
         return [("Some", bool_facts(t[2][0], True), some_v), ("None", bool_facts(t[2][0], False), t)]
@@ -479,6 +482,9 @@ def switch_facts(ev, ctx, bb, target_vals, is_otherwise, listed_vals):
             elif possible == {"None"}:
                 out.append(("is_some", X, False))
                 out.extend(checked_facts(X, False))
+            if X[0] == "call" and X[1] == "Option::zip" and len(X[2]) == 2 and possible == {"Some"}:
+                out.append(("is_some", unref(X[2][0]), True))
+                out.append(("is_some", unref(X[2][1]), True))
             if X[0] == "call" and X[1] in ("bool::then", "bool::then_some") and possible in ({"Some"}, {"None"}):
                 out.extend(bool_facts(X[2][0], possible == {"Some"}))
             if X[0] == "call" and X[1] == "slice_get" and len(X[2]) == 2:
